@@ -773,7 +773,7 @@ package diam
 //@   ensures unpinned: curstream(r) == 18446744073709551615
 //@ end
 //@ func (*conn).readMessage(c) (m, err)
-//@   property C08 C15 C19
+//@   property C05 C08 C15 C19
 //@   requires c != nil && c.server != nil && c.rwc != nil
 //@   requires dict_wf: c.server.Dict != nil ==> pwf(c.server.Dict)
 //@   requires buffered: !implements(c.rwc, MultistreamConn) ==> c.buf != nil && c.buf.Reader != nil && 0 <= pos(c.buf.Reader) && pos(c.buf.Reader) <= len(stream(c.buf.Reader)) && !implements(c.buf.Reader, MultistreamReader)
@@ -787,6 +787,14 @@ package diam
 //@   ghostset readattempts(c) = old(readattempts(c)) + 1
 //@   ghostset reportsatread(c) = reports()
 //@   ensures [C19] nothing_without_error: err == nil <==> m != nil
+//@   # C05 at the connection: every message of a (single-stream) connection is read from the connection's one buffered
+//@   # reader, starting exactly where the previous message ended and consuming exactly its declared length - nothing the
+//@   # reader has already taken from the transport is skipped or dropped between messages
+//@   ensures [C05] consumes_exactly_the_message: !implements(c.rwc, MultistreamConn) && err == nil ==> m.Header != nil &&
+//@           pos(c.buf.Reader) == old(pos(c.buf.Reader)) + int(be24(stream(c.buf.Reader), old(pos(c.buf.Reader)) + 1))
+//@   ensures [C05] the_header_at_the_old_cursor: !implements(c.rwc, MultistreamConn) && err == nil ==> hdr_wire(m.Header, stream(c.buf.Reader)[old(pos(c.buf.Reader)):])
+//@   ensures [C05] end_of_stream_between_messages: !implements(c.rwc, MultistreamConn) && old(pos(c.buf.Reader)) == len(stream(c.buf.Reader)) ==> err == io.EOF
+//@   ensures [C05] the_same_reader_next_time: c.buf == old(c.buf) && (c.buf != nil ==> c.buf.Reader == old(c.buf.Reader))
 //@   ensures [C15] outcome_noted: lastreaderr(c) == err && reportsatread(c) == reports() && readattempts(c) == old(readattempts(c)) + 1
 //@   ensures [C08] counted: msgsread(c) == (err == nil ? old(msgsread(c)) + 1 : old(msgsread(c))) && (err == nil ==> lastread(c) == m)
 //@ end
